@@ -1,6 +1,6 @@
 (* Property C07 -- an EQL query translated to SQL selects the same entities as in-memory evaluation.
    Only statements, each closed by [exact].  Model: Orm/EqlToSql.v (translator, tree after the C07 fix: commits
-   5ffa83c f1c6930 6b20ce1 6e7d0db 7e47af0 f599ad3 20777ed 24ba119 c0600cf cbfdb2e 313603b 99b53a0 beaaa59) over Orm/SqlAlg.v (what the statement means on SQLite --
+   5ffa83c f1c6930 6b20ce1 6e7d0db 7e47af0 f599ad3 20777ed 24ba119 c0600cf cbfdb2e 313603b 99b53a0 beaaa59 ca259e0 562b77d 7963bf7 873189c 5834cd1 0ef3a40 7ef093b) over Orm/SqlAlg.v (what the statement means on SQLite --
    compared, not proved); Spec: Orm/EqlToSqlSpec.v ([answers]).  Level: partial. *)
 From Coq Require Import List ZArith Bool.
 From Krrood Require Import Base.Sx Orm.EqlToSqlSpec Orm.SqlAlg Orm.EqlToSql Orm.EqlToSqlProofs Orm.EqlToSqlJoinProofs.
@@ -48,13 +48,13 @@ Theorem C07_accepts_join : forall sc q w, f07j sc q w = true -> exists s, transl
 Proof. exact f07j_accepted. Qed.
 
 (* a to-one chain through a None reference is OUTSIDE F07: the rows of a statement are the concatenation of what each root row
-   contributes, and a root row whose foreign key for the first hop of a joined path is NULL contributes nothing, whatever the
-   WHERE clause says (inner join) -- while in memory the chain raises AttributeError, or, below an or_ whose other branch holds, is
-   never followed and the entity is returned (C07_refuted_noneref) *)
+   contributes, and a root row whose foreign key for the first hop of an INNER-joined path is NULL contributes nothing, whatever
+   the WHERE clause says -- while in memory the chain raises AttributeError (C07_refuted_noneref).  Joins made below an or_ are
+   LEFT OUTER joins since 873189c: there the row is kept and another alternative can select it, as in memory (C07_fixed_noneref_or) *)
 Theorem C07_rows_by_root : forall s d l, sem s d = Some l -> l = flat_map (contribution s d) (d (s_root s)).
 Proof. exact sem_by_root. Qed.
 Theorem C07_noneref_drops : forall s d r js1 a tgt js2,
-  s_joins s = js1 ++ JRel 0%nat a tgt :: js2 -> col r a = VNull -> contribution s d r = [].
+  s_joins s = js1 ++ JRel false 0%nat a tgt :: js2 -> col r a = VNull -> contribution s d r = [].
 Proof. exact noneref_drops. Qed.
 
 (* reject or agree.  (1) a condition containing a node kind the translator does not know (not_) never yields a statement *)
@@ -75,10 +75,9 @@ Theorem C07_rejects_rel_in_list : forall sc q v ch cs,
   q_cond q = Some (CContains (OList cs) (OAttr v ch)) -> is_rel sc (q_vars q) (OAttr v ch) = true -> translate sc q = TReject.
 Proof. exact rejects_rel_in_list. Qed.
 (* (4) an attribute-equality join of two variables of the selected type is rejected (was C07-g) *)
-Theorem C07_rejects_selfjoin : forall sc q v1 ch1 v2 ch2 root a1 a2 t1 t2,
-  q_cond q = Some (CCmp OEq (OAttr v1 ch1) (OAttr v2 ch2)) -> v1 <> v2 ->
+Theorem C07_rejects_selfjoin : forall sc q v1 a1 v2 a2 root t1 t2,
+  q_cond q = Some (CCmp OEq (OAttr v1 [a1]) (OAttr v2 [a2])) -> v1 <> v2 ->
   assoc (q_sel q) (q_vars q) = Some root -> assoc v1 (q_vars q) = Some root -> assoc v2 (q_vars q) = Some root ->
-  last_of ch1 = Some a1 -> last_of ch2 = Some a2 ->
   field_kind sc root a1 = Some (FRel t1) -> field_kind sc root a2 = Some (FRel t2) ->
   translate sc q = TReject.
 Proof. exact rejects_selfjoin. Qed.
@@ -97,11 +96,34 @@ Theorem C07_refuted_valueeq :      (* related entities are compared by foreign k
   model_res Wit.sc Wit.q_valueeq Wit.w = Some (Ok []) /\ answers Wit.sc Wit.q_valueeq Wit.w = Ok [10].
 Proof. exact refuted_valueeq. Qed.
 
-Theorem C07_refuted_noneref :      (* a None reference on a chain: dropped by the inner join; memory returns the entity (below or_) or raises *)
-  (model_res Wit.sc WitJ.q_noneref_or WitJ.wn = Some (Ok [6]) /\ answers Wit.sc WitJ.q_noneref_or WitJ.wn = Ok [5; 6]) /\
-  (model_res Wit.sc WitJ.q_noneref WitJ.wn = Some (Ok [6]) /\ answers Wit.sc WitJ.q_noneref WitJ.wn = Err AttrErr) /\
-  f07 Wit.sc WitJ.q_noneref_or WitJ.wn = false.
+Theorem C07_refuted_noneref :      (* a None reference on a conjunctive chain: memory raises AttributeError, the inner join drops the row, SQL answers *)
+  model_res Wit.sc WitJ.q_noneref WitJ.wn = Some (Ok [6]) /\ answers Wit.sc WitJ.q_noneref WitJ.wn = Err AttrErr /\
+  f07 Wit.sc WitJ.q_noneref WitJ.wn = false.
 Proof. exact refuted_noneref. Qed.
+Example C07_fixed_noneref_or :     (* below or_ the join is an outer join: the pose without position is returned on both sides (was C07-l) *)
+  model_res Wit.sc WitJ.q_noneref_or WitJ.wn = Some (Ok [5; 6]) /\ answers Wit.sc WitJ.q_noneref_or WitJ.wn = Ok [5; 6].
+Proof. exact fixed_noneref_or. Qed.
+(* (9) the round-7 rejections: an operand the translator does not know (method call, index), at any depth; a text literal against
+   a numeric column / a number against a text column; a join equality with a chain of more than one hop *)
+Theorem C07_rejects_other : forall sc q c, q_cond q = Some c -> has_other c = true -> forall s, translate sc q <> TOk s.
+Proof. exact rejects_other. Qed.
+Theorem C07_rejects_text_number : forall sc q op v ch lit,
+  q_cond q = Some (CCmp op (OAttr v ch) (OLit lit)) -> operand_mismatch sc (q_vars q) (OAttr v ch) lit = true ->
+  forall s, translate sc q <> TOk s.
+Proof. exact rejects_text_number. Qed.
+Theorem C07_rejects_long_join : forall sc q v1 a1 b1 ch1 v2 ch2,
+  q_cond q = Some (CCmp OEq (OAttr v1 (a1 :: b1 :: ch1)) (OAttr v2 ch2)) -> v2 <> q_sel q ->
+  forall s, translate sc q <> TOk s.
+Proof. exact rejects_long_join. Qed.
+Example C07_fixed_round7 :         (* two variables of one type, long join chain, unknown operand, text vs number, plain-value variable: rejected;
+                                      None inside in_: same rows; an or-join over an empty other table keeps the rows (outside F07J) *)
+  translate Wit.sc WitJ.q_two_vars = TReject /\ translate Wit.sc WitJ.q_long_join = TReject /\
+  translate Wit.sc WitJ.q_other = TReject /\ translate Wit.sc WitJ.q_text_number = TReject /\
+  translate Wit.sc WitJ.q_text_number_in = TReject /\ translate Wit.sc WitJ.q_plain_var = TReject /\
+  (model_res Wit.sc WitJ.q_none_in Wit.w = Some (Ok [3]) /\ answers Wit.sc WitJ.q_none_in Wit.w = Ok [3]) /\
+  (model_res Wit.sc WitJ.q_join_or WitJ.w_nopc = Some (Ok [10]) /\ answers Wit.sc WitJ.q_join_or WitJ.w_nopc = Ok [] /\
+   f07j Wit.sc WitJ.q_join_or WitJ.w_nopc = false).
+Proof. exact fixed_round7. Qed.
 (* (8) <, <=, >, >= with an Enum-typed column on either side is never answered (was C07-o) *)
 Theorem C07_rejects_enum_order : forall sc q op l r,
   q_cond q = Some (CCmp op l r) -> eqne op = false ->
@@ -198,3 +220,6 @@ Print Assumptions C07_refuted_noneref.
 Print Assumptions C07_rejects_var_operand.
 Print Assumptions C07_rejects_setof.
 Print Assumptions C07_rejects_enum_order.
+Print Assumptions C07_rejects_other.
+Print Assumptions C07_rejects_text_number.
+Print Assumptions C07_rejects_long_join.
